@@ -1,4 +1,5 @@
 import IpamVerif.System
+import IpamVerif.Facts
 /-!
 # C11 — when changes stop the controller converges; failed items are queued again
 
@@ -51,5 +52,10 @@ theorem refusal_is_error (s : Sys) (n : NodeObj) (refresh : Bool) (ws : List WOu
   unfold allocateOrOccupy
   rw [if_neg (by simp [hn]), h]
   exact ⟨rfl, rfl, rfl⟩
+
+/-- the worker loops re-queue on error and forget only on success (C11), regenerated fact -/
+theorem workerLoopsRequeue : Facts.workerLoops =
+    [("processNextCIDRWorkItem", true, true), ("processNextNodeWorkItem", true, true)] := by decide
+
 
 end Ipam.C11
